@@ -64,7 +64,7 @@ pub struct Model {
     pub faulty: bool,
     /// successful datagrams in order: (bytes, was a bypass write)
     pub datagrams: Vec<(Vec<u8>, bool)>,
-    /// the most recent attempt on the underlying writer ended in a panic of that writer
+    /// the underlying writer has panicked at some point of this history
     pub inner_panicked: bool,
 }
 
